@@ -407,6 +407,9 @@ def checkCall (p : Nat) (v : Variant) (lowerArgs async : Bool) (f : Func) (vals 
         else
         let recFrees := (s.freed.filter fun b => b.1 == recPtr && sig.indirectParams).length
         let wantFrees := if sig.indirectParams && v.isExport then 1 else 0
+        -- ... and with the layout the caller allocated it with (size and alignment of the record)
+        let recBlock : Nat × Nat × Nat := (recPtr, elemSize p recTy, alignment p recTy)
+        let badRecFree := sig.indirectParams && s.freed.any fun b => b.1 == recPtr && b != recBlock
         let resultOk (ys : List MV) (flatOk : Bool) : Bool :=
           match cvals ys with
           | none => false
@@ -426,6 +429,8 @@ def checkCall (p : Nat) (v : Variant) (lowerArgs async : Bool) (f : Func) (vals 
         if !tailOk then "FAIL result-not-canonical"
         else if recFrees != wantFrees then
           "FAIL param-record-frees=" ++ toString recFrees ++ " expected=" ++ toString wantFrees
+        else if badRecFree then
+          "FAIL param-record-free-layout freed=" ++ toString (s.freed.filter fun b => b.1 == recPtr) ++ " allocated=" ++ toString recBlock
         else if (s.freed.filter fun b => blocksBefore.any (·.1 == b.1) && b.1 != recPtr).length != 0 then
           "FAIL freed-foreign-block"
         else "ok"
